@@ -196,6 +196,11 @@ func ProcessBulk(ctx context.Context, l backend.Ledger, bulk Bulk, continueOnFai
 					ResponseType: element.Action,
 				})
 			}
+		default:
+			bulkError(element.Action, ErrValidation, fmt.Errorf("unknown action '%s' for element %d", element.Action, i))
+			if !continueOnFailure {
+				return ret, errorsInBulk, nil
+			}
 		}
 	}
 	return ret, errorsInBulk, nil
